@@ -9,6 +9,7 @@ import hashlib
 import json
 import os
 import random
+import re
 import subprocess
 import sys
 
@@ -45,6 +46,42 @@ def render(obj):
         except Exception as e:  # pylint: disable=broad-except
             outputs['markdown_result'] = ('raised', type(e).__name__, e)
     return outputs
+
+
+_HEADER = re.compile(r'^(\* [^:]+:|\d+\.)$')
+_ENTRY = re.compile(r'^(\* .+|\d+\.( .*)?)$')
+
+
+def outline_problem(text):
+    """The Markdown the library writes is an outline: entries `* name: value` / `N. value`, a header (`* name:` or a bare
+    `N.`) owns the lines under it, which sit exactly one level (four blanks) deeper. Returns a description of the first line
+    that does not fit, None for a well-formed outline. Single-line results are values, not outlines."""
+    lines = text.split('\n')
+    if lines and lines[-1] == '':
+        lines.pop()
+    if len(lines) < 2:
+        return None
+    previous_indent, previous_header = None, False
+    for number, line in enumerate(lines):
+        body = line.lstrip(' ')
+        indent = len(line) - len(body)
+        if not _ENTRY.match(body):
+            return 'line %d is not an outline entry: %r' % (number + 1, line[:80])
+        if indent % 4:
+            return 'line %d is indented by %d blanks: %r' % (number + 1, indent, line[:80])
+        if previous_indent is None:
+            if indent:
+                return 'the first line is indented: %r' % line[:80]
+        elif previous_header:
+            if indent != previous_indent + 4:
+                return 'line %d under a header is indented by %d blanks instead of %d: %r' % (
+                    number + 1, indent, previous_indent + 4, line[:80])
+        elif indent > previous_indent:
+            return 'line %d is deeper than the entry before it, which is not a header: %r' % (number + 1, line[:80])
+        previous_indent, previous_header = indent, bool(_HEADER.match(body))
+    if previous_header:
+        return 'the last line is a header without anything under it: %r' % lines[-1][:80]
+    return None
 
 
 def comparable(outputs):
@@ -236,6 +273,15 @@ class Check(core.CheckBase):
                 except ValueError as e:
                     found.append(self.violation('json-invalid|%s' % cls_name,
                                                 '%s of a %s is not accepted by json.loads: %s' % (name, cls_name, e), case))
+        for name in ('as_markdown', 'markdown_result'):
+            text = first.get(name)
+            # values holding line breaks or rendered through a custom encoder are not outlines of the library's own making
+            if isinstance(text, str) and isinstance(first.get('json'), str) and '\\n' not in first['json'] and '\\r' not in first['json']:
+                self.stats['outlines_checked'] += 1
+                problem = outline_problem(text)
+                if problem:
+                    found.append(self.violation('markdown-outline|%s' % cls_name,
+                                                '%s of a %s is not a well-formed outline: %s' % (name, cls_name, problem), case))
         if 'json' in first and 'as_json' in first and isinstance(first['json'], str) and first['json'] != first['as_json']:
             found.append(self.violation('as_json-differs-from-dumps|%s' % cls_name, 'as_json() != json.dumps(obj)', case))
         second = render(obj)
